@@ -103,7 +103,9 @@ fn p_fx(f: &FXRates) -> Value {
             re.push(fj(number_re(&f.rate(a, b).unwrap())));
         }
     }
-    let quotes: Vec<Value> = verif::fxrates_quotes(f).iter().map(|(l, r_, n, s)| json!({"l": l, "r": r_, "v": p_num(n), "settle": s.map(|d| nd(&d)).unwrap_or(0)})).collect();
+    let quotes: Vec<Value> = verif::fxrates_quotes(f).iter().map(|(l, r_, n, s)| json!({"l": l, "r": r_, "v": p_num(n), "settle": s.map(|d| nd(&d)).unwrap_or(0),
+        "settle_s": s.map(|d| { use chrono::Timelike; d.time().num_seconds_from_midnight() as i64 }).unwrap_or(-1),
+        "settle_ns": s.map(|d| { use chrono::Timelike; d.time().nanosecond() as i64 }).unwrap_or(-1)})).collect();
     json!({"ccys": ccys, "order": verif::fxrates_ad(f), "quotes": quotes, "re": re})
 }
 fn p_curve(c: &CurveH) -> Value {
@@ -180,7 +182,13 @@ fn rand_fx(r: &mut Rng) -> FXRates {
     let mut idx: Vec<usize> = (0..names.len()).collect();
     r.shuffle(&mut idx);
     let cs: Vec<&str> = idx[..nc].iter().map(|i| names[*i]).collect();
-    let settle = if r.coin() { None } else { Some(dn(20000)) };
+    // a settlement is a date-TIME: midnight, a time of day, or a time with a fraction of a second
+    let settle = match r.below(4) {
+        0 => None,
+        1 => Some(dn(20000)),
+        2 => Some(dn(r.range(10000, 30000)) + chrono::Duration::seconds(r.range(1, 86399))),
+        _ => Some(dn(r.range(10000, 30000)) + chrono::Duration::seconds(r.range(0, 86399)) + chrono::Duration::nanoseconds(r.range(1, 999_999_999))),
+    };
     let quotes: Vec<FXRate> = (1..nc).map(|i| {
         let j = r.below(i as u64) as usize;
         let (a, b) = if r.coin() { (cs[i], cs[j]) } else { (cs[j], cs[i]) };
